@@ -520,7 +520,7 @@ func reverse(b []byte) []byte {
 }
 
 func readN(conn net.Conn, n int) []byte {
-	conn.SetReadDeadline(time.Now().Add(60 * time.Second))
+	conn.SetReadDeadline(time.Now().Add(20 * time.Second))
 	buf := make([]byte, n)
 	got := 0
 	for got < n {
@@ -748,7 +748,7 @@ func (e *env) udpTunnel() {
 			e.c.Fail("write-failed:udp", err.Error(), nil)
 			break
 		}
-		if tunnelmesh.WaitFor(20*time.Second, func() bool {
+		if tunnelmesh.WaitFor(8*time.Second, func() bool {
 			return e.rec.count(m, func(ev tunnelmesh.FrameEvent) bool { return ev.From == 1 && ev.To == 0 && ev.Type == fUDPDatagram }) > seen
 		}) != nil {
 			e.c.Fail("bytes-not-delivered:udp", fmt.Sprintf("no reply datagram for a %d byte datagram", n), nil)
@@ -980,7 +980,7 @@ func (e *env) icmpTunnel() {
 			e.c.Fail("write-failed:icmp", err.Error(), nil)
 			break
 		}
-		if tunnelmesh.WaitFor(20*time.Second, func() bool { return e.rec.count(m, reply) > seen }) != nil {
+		if tunnelmesh.WaitFor(8*time.Second, func() bool { return e.rec.count(m, reply) > seen }) != nil {
 			e.c.Fail("bytes-not-delivered:icmp", "no echo reply reached the ingress", nil)
 			break
 		}
